@@ -5,9 +5,12 @@
    order parameter of model/CmpbOrder.v (the site list equals gen/MapRangeGen.v by a computed
    lemma); the theorems say the result is the same for all permutations. *)
 From Coq Require Import String List NArith Bool Permutation Sorted.
-From J5V.gen Require MapRangeGen SetExtGen.
-From J5V.model Require Import CmpbOrder.
-From J5V.proofs Require Import CmpbOrderProofs.
+From J5V.lib Require Import Outcome Strcase.
+From J5V.gen Require MapRangeGen SetExtGen StateGen.
+From J5V.model Require Import Desc J5sAst J5sWalk J5sConvert CmpbOrder CmpbInstance.
+From J5V.proofs Require Import CmpbOrderProofs CmpbComposeProofs CmpbStateProofs.
+From J5V.model Require ProtoPrintFile.
+From J5V.proofs Require CmpbPrintBridgeProofs.
 Import ListNotations.
 Local Open Scope N_scope.
 
@@ -82,6 +85,81 @@ Theorem C14_link_cache_transparent :
 Proof. exact @link_file_spec. Qed.
 Print Assumptions C14_link_cache_transparent.
 
+(* ---- CompilePackage AS A WHOLE: load (package cache) composed with link (SearchResult.Linked cache); the link
+   phase finds files through findFileByPath over whatever packages are loaded (lookup_in; [owner] = packageForFile).
+   Same bundle, ANY listing / map-iteration orders, ANY fuels, ANY histories of earlier CompilePackage calls on the
+   PackageSet (both caches in play; fresh = empty history): two calls that return, return the same linked files
+   in the same order *)
+Theorem C14_compile_package_linked_deterministic :
+  forall (F D L : Type) (convert : env -> @srcfile F -> bytes -> D) (owner : bytes -> bytes)
+         (deps_of : D -> list bytes) (link1 : D -> list L -> L) lf1 rd1 rf1 lf2 rd2 rf2,
+    (forall n l, Permutation (lf1 n l) l) -> (forall n l, Permutation (rd1 n l) l) -> (forall n l, Permutation (rf1 n l) l) ->
+    (forall n l, Permutation (lf2 n l) l) -> (forall n l, Permutation (rd2 n l) l) -> (forall n l, Permutation (rf2 n l) l) ->
+    forall b, valid b -> forall f1 l1 f2 l2 earlier1 earlier2 n r1 r2 s1 s2 o1 o2,
+      let h1 := compile_link_seq convert lf1 rd1 rf1 owner deps_of link1 f1 l1 b [] [] earlier1 in
+      let h2 := compile_link_seq convert lf2 rd2 rf2 owner deps_of link1 f2 l2 b [] [] earlier2 in
+      compile_and_link convert lf1 rd1 rf1 owner deps_of link1 f1 l1 b (fst h1) (snd h1) n = Some (r1, s1, o1) ->
+      compile_and_link convert lf2 rd2 rf2 owner deps_of link1 f2 l2 b (fst h2) (snd h2) n = Some (r2, s2, o2) ->
+      o1 = o2.
+Proof. exact @compile_package_linked_deterministic. Qed.
+Print Assumptions C14_compile_package_linked_deterministic.
+
+(* what one such call returns: the package's sorted file names, each with what linking it yields through the lookup
+   the BUNDLE determines (not the current state of the PackageSet), both cache invariants preserved *)
+Theorem C14_compile_and_link_spec :
+  forall (F D L : Type) (convert : env -> @srcfile F -> bytes -> D) (owner : bytes -> bytes)
+         (deps_of : D -> list bytes) (link1 : D -> list L -> L) lf rd rf,
+    (forall n l, Permutation (lf n l) l) -> (forall n l, Permutation (rd n l) l) -> (forall n l, Permutation (rf n l) l) ->
+    forall b, valid b -> forall fuel lfuel pc lc n pc' lc' out, both_ok convert owner deps_of link1 b pc lc ->
+      compile_and_link convert lf rd rf owner deps_of link1 fuel lfuel b pc lc n = Some (pc', lc', out) ->
+      both_ok convert owner deps_of link1 b pc' lc'
+      /\ map fst out = map fst (p_files (spec_pkg convert b n))
+      /\ exists f, spec_list (spec_lookup convert owner b) deps_of link1 f (map fst (p_files (spec_pkg convert b n))) = Some (map snd out).
+Proof. exact @compile_and_link_spec. Qed.
+Print Assumptions C14_compile_and_link_spec.
+
+(* the link phase returns whenever the import relation between files is well founded and every import can be found
+   (more fuel than the rank; the Go code recurses along the same relation and reports a circular file import) *)
+Theorem C14_link_total :
+  forall (D L : Type) (lookup : bytes -> option D) (deps_of : D -> list bytes) (link1 : D -> list L -> L) (rank : bytes -> nat),
+    (forall n d, lookup n = Some d -> forall dep, In dep (deps_of d) -> lookup dep <> None /\ (rank dep < rank n)%nat) ->
+    forall fuel names c, (forall n, In n names -> lookup n <> None /\ (rank n < fuel)%nat) ->
+      exists c' ls, link_all lookup deps_of link1 fuel c names = Some (c', ls).
+Proof. exact @link_all_total. Qed.
+Print Assumptions C14_link_total.
+
+(* ---- the conversion stage is not an opaque parameter: the skeleton instantiated with cmpa's Gallina model of
+   ConvertJ5File (model/J5sConvert.v cv_file over the AST of model/J5sAst.v, lib/Strcase.v for the names), which
+   is a function of the file's AST and of the resolver the skeleton hands it (own exports + direct dependencies'
+   exports).  Its distance to the Go converter is cmpa's tie (C02 / C13), not re-checked here *)
+Theorem C14_compile_deterministic_with_cmpa_converter :
+  forall (bd : J5sAst.bundle) rank, valid (of_bundle bd) -> well_founded_deps (of_bundle bd) rank ->
+  forall lf rd rf,
+    (forall n l, Permutation (lf n l) l) -> (forall n l, Permutation (rd n l) l) -> (forall n l, Permutation (rf n l) l) ->
+  forall fuel earlier n, find_pkg n (of_bundle bd) <> None -> (rank n < fuel)%nat ->
+    exists c, compile_package (cmpa_convert bd) lf rd rf fuel (of_bundle bd)
+                (compile_seq (cmpa_convert bd) lf rd rf fuel (of_bundle bd) [] earlier) n
+              = Some (c, p_files (spec_pkg (cmpa_convert bd) (of_bundle bd) n)).
+Proof. exact (fun bd => compile_total_deterministic (cmpa_convert bd) (of_bundle bd)). Qed.
+Print Assumptions C14_compile_deterministic_with_cmpa_converter.
+
+(* ---- process-level state: no package-level variable of the compile-path packages is written outside init *)
+Theorem C14_process_state_reviewed : state_vars_same_set = true.
+Proof. exact state_vars_agree. Qed.
+Print Assumptions C14_process_state_reviewed.
+Theorem C14_no_runtime_process_state : no_runtime_process_state = true.
+Proof. exact no_runtime_process_state_holds. Qed.
+Print Assumptions C14_no_runtime_process_state.
+
+(* ---- the shape of every unordered loop body, regenerated from the Go source, is the one its row was written for;
+   every key collection that is used as a sequence is followed by a sort *)
+Theorem C14_order_bodies_agree : order_bodies_same_set = true.
+Proof. exact order_bodies_agree. Qed.
+Print Assumptions C14_order_bodies_agree.
+Theorem C14_collected_keys_sorted : collected_keys_are_sorted = true.
+Proof. exact collected_keys_sorted. Qed.
+Print Assumptions C14_collected_keys_sorted.
+
 (* ---- the generated file's import list depends only on the SET of files passed to ensureImport *)
 Theorem C14_imports_order_irrelevant : forall c1 c2, (forall x, In x c1 <-> In x c2) -> ensure_all c1 = ensure_all c2.
 Proof. exact ensure_all_set_invariant. Qed.
@@ -123,6 +201,20 @@ Theorem C14_emitted_option_indexes_distinct :
     ["*descriptorpb.MessageOptions"; "*descriptorpb.ServiceOptions"; "*descriptorpb.MethodOptions"; "*descriptorpb.EnumOptions"]%string = true.
 Proof. exact emitted_option_indexes_distinct. Qed.
 Print Assumptions C14_emitted_option_indexes_distinct.
+
+(* the same on the `tool` family's model of the printer (model/ProtoPrintFile.v, tied to protoprint by C05): the
+   option lists are the only place where protobuf's Range order enters the printed text; what printSection lays
+   out (lay_sopts: Go's insertion sort under optionsByLocation.Less, then parseOption) and what printFieldStyle
+   lays out (lay_fopts: re-sorted by printed name) do not depend on the order the options arrive in, whenever
+   their sort keys (line, index, full name) are distinct *)
+Theorem C14_printer_model_options_order_free : forall o1 o2,
+  Permutation o1 o2 ->
+  (forall a b, In a o1 -> In b o1 -> CmpbPrintBridgeProofs.dopt_key a = CmpbPrintBridgeProofs.dopt_key b -> a = b) ->
+  ProtoPrintFile.lay_sopts o1 = ProtoPrintFile.lay_sopts o2 /\ ProtoPrintFile.lay_fopts o1 = ProtoPrintFile.lay_fopts o2.
+Proof.
+  exact (fun o1 o2 Hp Hd => conj (CmpbPrintBridgeProofs.lay_sopts_perm o1 o2 Hp Hd) (CmpbPrintBridgeProofs.lay_fopts_perm o1 o2 Hp Hd)).
+Qed.
+Print Assumptions C14_printer_model_options_order_free.
 
 (* field and enum-value options are re-sorted by qualified name: independent of Range order *)
 Theorem C14_print_field_options : forall l1 l2,
@@ -178,3 +270,27 @@ Example C14_example_compile :
          (compile_seq conv (fun _ l => rev l) (fun _ l => rev l) (fun _ l => rev l) 5 b [] [[103]]) [102] = Some (c2, out)
     /\ length out = 3%nat.
 Proof. cbv zeta. eexists. eexists. eexists. split; [vm_compute; reflexivity|split; vm_compute; reflexivity]. Qed.
+
+(* the instantiated skeleton computes: two packages, a cross-package reference through an import, a reference to
+   another file of the same package, a service (sub-package file); reversed listings and map orders give the same
+   files, and the descriptors are exactly the ones cmpa's convert_package yields for the bundle *)
+Example C14_example_cmpa_converter :
+  let foo_v1 := [b "foo"; b "v1"] in let baz_v1 := [b "baz"; b "v1"] in
+  let bd : J5sAst.bundle :=
+    [ BJ (mkJfile foo_v1 (b "a") [mkImport (b "baz.v1") (b "baz")]
+           [EObject (b "Foo") (mkprops [Property (b "bar") false false (FObjRef (mkRef (b "baz") (b "Bar")));
+                                        Property (b "k") true false (FEnumRef (mkRef (b "baz") (b "Kind")));
+                                        Property (b "own") false false (FObjRef (mkRef [] (b "Other")))]) NNil]);
+      BJ (mkJfile foo_v1 (b "b") [] [EObject (b "Other") (mkprops [Property (b "x") false false (FScalar SString)]) NNil;
+                                     EService (J5sAst.mkService (b "Svc") None [])]);
+      BJ (mkJfile baz_v1 (b "types") [] [EObject (b "Bar") (mkprops [Property (b "x") false false (FScalar SString)]) NNil;
+                                         EEnum (J5sAst.mkEnum (b "Kind") [] [b "A"; b "B"])]) ] in
+  let idf := fun (_ : bytes) (l : list (@srcfile jfile)) => l in let idp := fun (_ : bytes) (l : list bytes) => l in
+  let revf := fun (_ : bytes) (l : list (@srcfile jfile)) => rev l in let revp := fun (_ : bytes) (l : list bytes) => rev l in
+  exists c1 c2 out ds,
+    compile_package (cmpa_convert bd) idf idp idp 5 (of_bundle bd) [] (b "foo.v1") = Some (c1, out)
+    /\ compile_package (cmpa_convert bd) revf revp revp 5 (of_bundle bd) [] (b "foo.v1") = Some (c2, out)
+    /\ convert_package to_snake to_camel to_screaming_snake bd (b "foo.v1") = Ok ds
+    /\ length out = 3%nat
+    /\ forallb (fun x => match snd x with Some d => existsb (dfile_eqb d) ds | None => false end) out = true.
+Proof. cbv zeta. eexists. eexists. eexists. eexists. repeat split; vm_compute; reflexivity. Qed.
